@@ -8,6 +8,7 @@ import (
 	"go/ast"
 	"go/parser"
 	"go/token"
+	"golang.org/x/tools/go/ssa"
 	"regexp"
 	"sort"
 	"strconv"
@@ -15,13 +16,13 @@ import (
 )
 
 type Clause struct {
-	Props []string // when set: the clause belongs to these properties only
-	OwnOnly bool   // exported to callers only in checks of those properties
-	Expr ast.Expr
-	Src  string
-	Mode string // "", "sound", "complete"
-	Line int
-	Tag  string // optional label (`ensures[name] ...`)
+	Props   []string // when set: the clause belongs to these properties only
+	OwnOnly bool     // exported to callers only in checks of those properties
+	Expr    ast.Expr
+	Src     string
+	Mode    string // "", "sound", "complete"
+	Line    int
+	Tag     string // optional label (`ensures[name] ...`)
 }
 
 type Contract struct {
@@ -29,6 +30,9 @@ type Contract struct {
 	Recv        string // receiver type name ("" for functions)
 	Name        string
 	Header      string
+	Fn          *ssa.Function
+	ParamNames  []string // receiver (if any) then parameters, as named in the contract header
+	Locals      []string // `locals` clause: the function's local variables, in declaration order, when the contract was written
 	Props       []string
 	Kind        string // circuit | plain
 	ResultNames []string
@@ -45,10 +49,10 @@ type Contract struct {
 	Cases       []caseSplit
 	AtCall      map[string][]Clause // "pkg.Recv.Fn#k": what must hold of the arguments at that static call site
 	LetAtCall   map[string][]Clause // "pkg.Recv.Fn#k": ghost definitions (assumed) naming the result of that call
-	Calls       []string         // every returning path has called these module functions
-	LoopCalls   map[int][]string // every iteration of loop N calls these module functions
-	Logicals    []logicalDecl // universally quantified specification variables (fresh at entry)
-	RefusalImp  []Clause      // every refusal (panic) path must satisfy these (entry-state expressions)
+	Calls       []string            // every returning path has called these module functions
+	LoopCalls   map[int][]string    // every iteration of loop N calls these module functions
+	Logicals    []logicalDecl       // universally quantified specification variables (fresh at entry)
+	RefusalImp  []Clause            // every refusal (panic) path must satisfy these (entry-state expressions)
 	Flags       map[string]bool
 	HintNames   []string
 	File        string
@@ -117,7 +121,7 @@ type ContractSet struct {
 	Lemmas    []*Lemma
 }
 
-var kwRe = regexp.MustCompile(`^(func|def|recdef|opaque|reveal|mapinv|lemma|axiom|assert|use_at_return|use|ghost|cases|let_at_call|at_call|calls|logical|refusal_implies|props|circuit|plain|requires|ensures|honest|loop|modifies|flag|hint|sound_ensures|complete_ensures|sound_requires|complete_requires)\b`)
+var kwRe = regexp.MustCompile(`^(func|locals|def|recdef|opaque|reveal|mapinv|lemma|axiom|assert|use_at_return|use|ghost|cases|let_at_call|at_call|calls|logical|refusal_implies|props|circuit|plain|requires|ensures|honest|loop|modifies|flag|hint|sound_ensures|complete_ensures|sound_requires|complete_requires)\b`)
 
 func endsOpen(s string) bool {
 	s = strings.TrimSpace(s)
@@ -304,6 +308,23 @@ func parseHeader(t string) (*Contract, error) {
 			c.Recv = id.Name
 		}
 	}
+	if fd.Recv != nil && len(fd.Recv.List) == 1 {
+		if len(fd.Recv.List[0].Names) == 1 {
+			c.ParamNames = append(c.ParamNames, fd.Recv.List[0].Names[0].Name)
+		} else {
+			c.ParamNames = append(c.ParamNames, "")
+		}
+	}
+	if fd.Type.Params != nil {
+		for _, p := range fd.Type.Params.List {
+			for _, n := range p.Names {
+				c.ParamNames = append(c.ParamNames, n.Name)
+			}
+			if len(p.Names) == 0 {
+				c.ParamNames = append(c.ParamNames, "")
+			}
+		}
+	}
 	if fd.Type.Results != nil {
 		for _, r := range fd.Type.Results.List {
 			for _, n := range r.Names {
@@ -336,6 +357,8 @@ func parseClause(c *Contract, t string, no int) error {
 	switch kw {
 	case "props":
 		c.Props = strings.Fields(rest)
+	case "locals":
+		c.Locals = strings.Fields(rest)
 	case "circuit", "plain":
 		c.Kind = kw
 		for _, fl := range strings.Fields(rest) {
